@@ -24,7 +24,7 @@
      at least 10^-9 away from one), and every run cross-checks the model's standard-grammar
      results against the real time.ParseDuration (a disagreement is a model defect, exit 2).
 
-   TWO MACHINES over the single variable st (constant Machine selects Init/Next):
+   THREE MACHINES over the single variable st (constant Machine selects Init/Next):
    * "fmt":   Init picks a cell of Cells and a style; Write moves one chunk into the buffer,
               w -= bytes.   Invariants:
                 InBuffer   - the write index never leaves the array          ("never panics")
@@ -41,6 +41,30 @@
                 RejectIsFinal / ResultWellFormed
      The dumped graph of this machine (ALIAS ParseAlias) is the acceptance table for every
      string over Alphabet up to MaxLen; the check walks all those strings on the real parsers.
+   * "hist":  HISTORIES of calls.  The helpers are functions of their argument only and a returned
+              text is a VALUE: it stays what it was, whatever is called afterwards.  The state is
+              the history so far (calls) and the result of its last call (text / res); the texts
+              handed out and not yet dropped by the caller (Held: cell, style, text) follow from
+              the history.  Calls:
+                HFormat(i, style)  format cell HCells[i]; the text joins the retained ones
+                                   (the same value may be formatted again: a second, equal text)
+                HParse(j)          parse the j-th retained text
+                HParseLit(k)       parse the unrelated string HLits[k]
+                HDrop(j)           the caller lets go of the j-th retained text
+              up to MaxCalls calls, so the state graph is the tree of all histories.  Invariants:
+                Retained    - after every call every retained text still parses back to exactly
+                              its own duration
+                TextIsValue - ... and still is the text that was returned
+                HistoryFree - the result of a call is the one-call-at-a-time result (Format /
+                              ParseSyms of the argument), whatever happened before
+              The constant Aliased = TRUE replaces the value semantics by the tempting
+              implementation "hand out the tail of one shared scratch array without copying":
+              a retained text then reads the current scratch.  That run must violate Retained
+              (witness run of the check: the invariant is not vacuous, and it names the defect
+              class).  HApply / HFmtOK / HParseRes are the functional core shared with
+              DurationTrace.tla, which validates recorded histories (sequential ones and the
+              per-goroutine projections of concurrent ones: the model has no shared state, so a
+              concurrent execution is correct iff every goroutine's own history is).
    ASSUME DayIs24h ties the one extra unit to 24 hours.
 
    The same operators are used by DurationTrace.tla to validate records made from the real code. *)
@@ -50,7 +74,11 @@ CONSTANTS BufLen,     \* size in bytes of the formatter's scratch array
           Alphabet,   \* symbols fed by the parse machine
           MaxLen,     \* longest input of the parse machine
           CellSets,   \* boundary values per component [d |-> {..}, h |-> .., m, s, ms, us, ns]
-          Machine     \* "fmt" | "parse"
+          Machine,    \* "fmt" | "parse" | "hist" ("trace" in DurationTrace)
+          HCells,     \* hist machine: sequence of cells the formatter is called with
+          HLits,      \* hist machine: sequence of unrelated strings (symbol sequences) that are parsed
+          MaxCalls,   \* hist machine: longest history
+          Aliased     \* hist machine: FALSE = texts are values; TRUE = witness (shared scratch handed out)
 
 VARIABLE st
 
@@ -279,8 +307,77 @@ RejectIsFinal == [][st.lib.ph = "rej" => st'.lib.ph = "rej"]_st
 ParseAlias == [j |-> ToJson([n |-> st.n, lib |-> End(st.lib, LibUnits), std |-> End(st.std, StdUnits),
                              day |-> DayUsed(st.lib), dead |-> (st.lib.ph = "rej" /\ st.std.ph = "rej")])]
 
+
+(* machine "hist": histories of formatter / parser calls.
+   An operation is a record [o, i, style, j]:  o = "fmt" (cell HCells[i], style), "parse" (j-th
+   retained text), "lit" (HLits[i]), "drop" (j-th retained text).  A retained text is
+   [cell, style, text]. *)
+HOp(o, i, sty, j) == [o |-> o, i |-> i, style |-> sty, j |-> j]
+RemoveAt(q, j) == SubSeq(q, 1, j - 1) \o SubSeq(q, j + 1, Len(q))
+
+\* functional core (also used by the trace monitor, with the text the real formatter returned)
+HFmtOK(c, text)    == ParseSyms(text, LibUnits) = CellRes(c)            \* a correct answer of the formatter
+HParseRes(text)    == ParseSyms(text, LibUnits)                         \* the answer of the parser: a function of the text
+HApply(H, o, j, c, sty, text) ==                                        \* the retained texts after the call
+    CASE o = "fmt"  -> Append(H, [cell |-> c, style |-> sty, text |-> text])
+      [] o = "drop" -> RemoveAt(H, j)
+      [] OTHER      -> H
+
+\* witness semantics: one shared scratch array, written right-aligned; a retained text of n symbols
+\* reads its last n symbols
+Overlay(scr, text) == IF Len(text) >= Len(scr) THEN text ELSE SubSeq(scr, 1, Len(scr) - Len(text)) \o text
+LastN(q, n)        == SubSeq(q, Len(q) - n + 1, Len(q))
+
+\* the retained texts after the first n calls of a history (each text as the model formats it)
+RECURSIVE HeldAfter(_, _)
+HeldAfter(calls, n) ==
+    IF n = 0 THEN <<>>
+    ELSE LET op == calls[n]
+             c  == IF op.o = "fmt" THEN HCells[op.i] ELSE 0
+         IN HApply(HeldAfter(calls, n - 1), op.o, op.j, c, op.style, IF op.o = "fmt" THEN Format(c, op.style) ELSE <<>>)
+Held(s) == HeldAfter(s.calls, Len(s.calls))
+TextNow(s, j) == LET t == Held(s)[j].text IN IF Aliased THEN LastN(s.scratch, Len(t)) ELSE t
+
+\* state: the history, the result of its last call (fmt: the text as returned, parse/lit: the value)
+\* and - witness semantics only - the shared scratch
+HistInit == st = [calls |-> <<>>, scratch |-> <<>>, text |-> <<>>, res |-> Reject]
+HDo(op) ==
+    /\ Len(st.calls) < MaxCalls
+    /\ LET text == IF op.o = "fmt" THEN Format(HCells[op.i], op.style) ELSE <<>>
+           scr  == IF Aliased /\ op.o = "fmt" THEN Overlay(st.scratch, text) ELSE st.scratch
+       IN st' = [calls   |-> Append(st.calls, op),
+                 scratch |-> scr,
+                 text    |-> IF Aliased THEN LastN(scr, Len(text)) ELSE text,
+                 res     |-> CASE op.o = "parse" -> HParseRes(TextNow(st, op.j))
+                               [] op.o = "lit"   -> HParseRes(HLits[op.i])
+                               [] OTHER          -> Reject]
+NHeld == Len(Held(st))
+HFormat(i, sty) == Machine = "hist" /\ HDo(HOp("fmt", i, sty, 0))
+HParse(j)       == Machine = "hist" /\ j <= NHeld /\ HDo(HOp("parse", 0, "", j))
+HParseLit(k)    == Machine = "hist" /\ HDo(HOp("lit", k, "", 0))
+HDrop(j)        == Machine = "hist" /\ j <= NHeld /\ HDo(HOp("drop", 0, "", j))
+
+Retained    == \A j \in 1..NHeld : HFmtOK(Held(st)[j].cell, TextNow(st, j))
+TextIsValue == \A j \in 1..NHeld : TextNow(st, j) = Format(Held(st)[j].cell, Held(st)[j].style)
+\* the result of a call is the one-call-at-a-time result, whatever happened before
+HistoryFree == st.calls # <<>> =>
+    LET n  == Len(st.calls)
+        op == st.calls[n]
+    IN CASE op.o = "fmt"   -> st.text = Format(HCells[op.i], op.style) /\ HFmtOK(HCells[op.i], st.text)
+         [] op.o = "lit"   -> st.res = ParseSyms(HLits[op.i], LibUnits)
+         [] op.o = "parse" -> st.res = CellRes(HeldAfter(st.calls, n - 1)[op.j].cell)     \* its own duration
+         [] OTHER          -> TRUE
+ASSUME HistConstants == Machine = "hist" => /\ \A i \in 1..Len(HCells) : HCells[i] \in Cells
+                                            /\ MaxCalls \in 1..8 /\ Aliased \in BOOLEAN
+HistAlias == [j |-> ToJson([n |-> Len(st.calls), held |-> NHeld])]
+
 ----------------------------------------------------------------------------
-Init == IF Machine = "fmt" THEN FmtInit ELSE ParseInit
-Next == Write \/ \E c \in Alphabet : FeedBoth(c)
+Init == CASE Machine = "fmt" -> FmtInit [] Machine = "hist" -> HistInit [] OTHER -> ParseInit
+Next == \/ Write
+        \/ \E c \in Alphabet : FeedBoth(c)
+        \/ \E i \in 1..Len(HCells), sty \in Styles : HFormat(i, sty)
+        \/ \E j \in 1..MaxCalls : HParse(j)
+        \/ \E k \in 1..Len(HLits) : HParseLit(k)
+        \/ \E j \in 1..MaxCalls : HDrop(j)
 Spec == Init /\ [][Next]_st
 =============================================================================
